@@ -112,9 +112,10 @@ def check(ctx):
     ensure_model(ctx)
     r = ctx.rng
     q = ctx.quick()
-    pcs = ppx.gen_general(r, 150 if q else 2500, tag="table")
+    pcs = ppx.gen_general(r, 150 if q else 2500, tag="table") + ppx.gen_scenarios(r, 80 if q else 1500)
     for pc in pcs:
         pc.ignore = False
+        ppx.twin_predef(r, pc)
     hand = ["`define A(x, y = 2, z) x+y \\\n +z\n`define B\n`define C \n`undef B\n`define D(p=(1,2), q=\"s,t\") p q\n",
             "`define A 1\n`undefineall\n`define B 2\n", "`define __LINE__ 5\n`define __FILE__ x\n`undef __LINE__\n",
             "`define M `define INNER 1\n`M\n", "`define U `undef A\n`define A 1\n`U\n", "`define SV_COV_OK 7\n"]
